@@ -29,7 +29,8 @@ func genHOp(kinds []string) *rapid.Generator[HOp] {
 		case "add", "addSafe":
 			op.A = genVal(t, "v")
 		case "set":
-			n := rapid.OneOf(rapid.IntRange(0, 12), rapid.IntRange(0, 40)).Draw(t, "n")
+			n := rapid.OneOf(rapid.IntRange(0, 12), rapid.IntRange(0, 12), rapid.IntRange(0, 40), rapid.IntRange(0, 40),
+				rapid.SampledFrom([]int{63, 64, 65, 100, 128, 129, 200, 257})).Draw(t, "n")
 			op.Vs = make([]int, n)
 			for i := range op.Vs {
 				op.Vs[i] = genVal(t, "sv")
